@@ -58,11 +58,11 @@ func (w *World) step(e Event, check bool) []mc.Violation {
 	var pkt *Packet
 	switch e.Kind {
 	case "up":
-		w.nodes[e.A].G.UpsertLocal(e.K, e.V)
+		w.nodes[e.A].G.UpsertLocal(Raw(e.K), Raw(e.V))
 		w.opsUsed[e.A]++
 		w.logWrites(e.A)
 	case "del":
-		w.nodes[e.A].G.DeleteLocal(e.K)
+		w.nodes[e.A].G.DeleteLocal(Raw(e.K))
 		w.opsUsed[e.A]++
 		w.logWrites(e.A)
 	case "compact":
@@ -260,7 +260,7 @@ func (w *World) Enabled() []Event {
 			case "del":
 				live := false
 				for _, e := range w.nodes[i].State.LocalNode().Entries {
-					if e.Key == op.K && !e.Deleted {
+					if e.Key == Raw(op.K) && !e.Deleted {
 						live = true
 					}
 				}
@@ -270,7 +270,7 @@ func (w *World) Enabled() []Event {
 			case "up":
 				same := false
 				for _, e := range w.nodes[i].State.LocalNode().Entries {
-					if e.Key == op.K && !e.Deleted && e.Value == op.V {
+					if e.Key == Raw(op.K) && !e.Deleted && e.Value == Raw(op.V) {
 						same = true
 					}
 				}
